@@ -28,6 +28,7 @@ import (
 	"github.com/openGemini/openGemini/lib/config"
 	"github.com/openGemini/openGemini/lib/fileops"
 	"github.com/openGemini/openGemini/lib/logger"
+	"github.com/openGemini/openGemini/lib/record"
 	"github.com/openGemini/openGemini/lib/statisticsPusher/statistics"
 	"github.com/openGemini/openGemini/lib/tracing"
 	"github.com/openGemini/openGemini/lib/util"
@@ -334,6 +335,42 @@ type c02wLayout struct {
 	Bounds   []int64 // first and last time of every segment of every file (sorted, distinct)
 	MaxSegs  int
 	Items    int // max meta-index items in one file
+	PreAgg   []string // development aid (VERIF_C02_PREAGG=1): columns whose value count in the chunk meta differs from the segments
+}
+
+var c02wCheckPreAgg = kit.Getenv("VERIF_C02_PREAGG", "") != ""
+
+// c02wPreAgg compares, for one chunk, the number of values every column's pre-aggregation reports with the number of
+// non-null values its segments hold (belongs to C09's property; used here only to validate a proposed repair).
+func c02wPreAgg(f immutable.TSSPFile, cm *immutable.ChunkMeta) []string {
+	var out []string
+	ctx := immutable.NewReadContext(true)
+	defer ctx.Release()
+	cols := cm.GetColMeta()
+	var schema record.Schemas
+	for i := range cols {
+		schema = append(schema, record.Field{Name: cols[i].Name(), Type: int(cols[i].Type())})
+	}
+	actual := make([]int64, len(cols))
+	for sgi := 0; sgi < cm.SegmentCount(); sgi++ {
+		dst := record.NewRecordBuilder(schema)
+		rec, err := f.ReadAt(cm, sgi, dst, ctx, fileops.IO_PRIORITY_LOW_READ)
+		if err != nil || rec == nil {
+			return []string{fmt.Sprintf("read segment %d: %v", sgi, err)}
+		}
+		for ci := range rec.ColVals {
+			actual[ci] += int64(rec.ColVals[ci].Len - rec.ColVals[ci].NilCount)
+		}
+	}
+	for i := range cols {
+		n, err := cols[i].RowCount(&schema[i], ctx)
+		if err != nil {
+			out = append(out, fmt.Sprintf("%s: %v", cols[i].Name(), err))
+		} else if n != actual[i] {
+			out = append(out, fmt.Sprintf("sid %d column %s: pre-aggregated count %d, segments hold %d values", cm.GetSid(), cols[i].Name(), n, actual[i]))
+		}
+	}
+	return out
 }
 
 func (v *vShard) c02wLayout() (c02wLayout, error) {
@@ -372,6 +409,9 @@ func (v *vShard) c02wLayout() (c02wLayout, error) {
 					l.MaxSegs = sc
 				}
 				fmt.Fprintf(&shape, "%d ", sc)
+				if c02wCheckPreAgg {
+					l.PreAgg = append(l.PreAgg, c02wPreAgg(f, &cms[j])...)
+				}
 				for s := 0; s < sc; s++ {
 					r := cms[j].GetTimeRangeBy(s)
 					bset[r[0]], bset[r[1]] = true, true
@@ -723,6 +763,9 @@ func c02wRunHistory(rep *kit.Report, dir string, c c02wCase, fullFrom int, stats
 			return fail(i+1, "wide_layout_error", err.Error())
 		}
 		prev = lay
+		if len(lay.PreAgg) > 0 {
+			return fail(i+1, "wide_preagg_mismatch", fmt.Sprintf("after %s: %s (layout %s)", op, strings.Join(lay.PreAgg, "; "), lay.Shape))
+		}
 		full := st.last && i >= fullFrom
 		if st.last {
 			end.lay, end.lastOp, end.digest = lay, c.Ops[i], m.Digest()
